@@ -46,9 +46,10 @@ RULE = ("hist/bad: generated histories (1-3 key columns from datetime[s|us|ns]/i
         "with 0-2 extra columns, shuffled column order, sometimes a key column missing. conv/hash: single keys registered "
         "alone. distinct = distinct case JSON; trivial = no key accepted (hist/bad)")
 ASSUMPTIONS = [
-    "a datetime key value reaches the model as the int64 the column stores in its own unit (the code floor-divides that "
-    "by 1e9 whatever the unit is); float keys are finite; integer key columns are int64; the datetime unit is the same "
-    "for all batches of one map",
+    "a datetime key value (and a Timestamp clock) reaches the model as its instant in nanoseconds, whatever unit the "
+    "column stores (since commit 11362e66 the code converts to ns before clipping to seconds; units are mixed on "
+    "purpose across batches and across the two maps of a pair); instants lie inside the ns range of int64; float keys "
+    "are finite; integer key columns are int64",
     "the collision loop of the real code is cut by the harness after fuel+1 calls of IndexMap._hash (or by a watchdog); "
     "the real loop need not terminate (DESIGN section 7, F-J) - liveness is outside the property, so the number of "
     "rounds is compared only grossly: a cut loop must need > fuel/2 rounds in the model, a finished one <= 2*fuel+2",
@@ -79,7 +80,14 @@ FUEL = 24
 SIZES_SMALL = [10, 16, 17, 19, 20, 23, 25, 29, 31, 32, 41, 50, 64, 97, 100, 101, 128, 200, 256]
 SIZES_BADGCD = [7, 9, 11, 13, 14, 21, 33, 37, 39, 77, 91, 111, 1001]        # share a factor with 111111 = 3*7*11*13*37
 SIZES_BIG = [1000, 1024, 4099, 10 ** 4, 65536, 10 ** 5, 10 ** 6, 10 ** 6 + 3, 2 ** 31 - 1, 2 ** 31, 2 ** 40]
-UNIT_SCALE = {"s": 1, "ms": 10 ** 3, "us": 10 ** 6, "ns": 10 ** 9}
+UNIT_SCALE = {"s": 1, "ms": 10 ** 3, "us": 10 ** 6, "ns": 10 ** 9}     # units per second
+NPU = {"s": 10 ** 9, "ms": 10 ** 6, "us": 10 ** 3, "ns": 1}            # nanoseconds per unit
+UNITS = ["s", "ms", "us", "ns"]
+
+
+def units_for(ns_values):
+    """The storage units that can hold all these instants (given in ns) exactly."""
+    return [u for u in UNITS if all(v % NPU[u] == 0 for v in ns_values)]
 _LITS = {}          # stream -> Coq literals of the cases run (for the statistics in extra())
 
 
@@ -120,7 +128,8 @@ def column(dtype, cells):
     import pandas as pd
     if dtype.startswith("d:"):
         unit = dtype[2:]
-        arr = np.array([c[1] for c in cells], dtype="int64").view(f"datetime64[{unit}]")
+        assert all(c[1] % NPU[unit] == 0 for c in cells), (unit, cells[:3])      # a date cell is the instant in ns
+        arr = np.array([c[1] // NPU[unit] for c in cells], dtype="int64").view(f"datetime64[{unit}]")
         col = pd.Series(arr)
         assert str(col.dtype) == f"datetime64[{unit}]", col.dtype
         return col
@@ -156,17 +165,18 @@ def key_index(dtypes, keys):
 
 
 def clock_value(t):
-    """JSON salt spec -> the value handed to IndexMap.update, and the cell the model sees."""
+    """JSON salt spec -> the value handed to IndexMap.update, and the cell the model sees.
+    ["d", instant in ns, storage unit of the Timestamp] | ["i", n]"""
     import pandas as pd
     tag, v = t[0], t[1]
     if tag == "d":
         unit = t[2]
-        ts = pd.Timestamp(int(v), unit=unit)
+        assert int(v) % NPU[unit] == 0, t
+        ts = pd.Timestamp(int(v) // NPU[unit], unit=unit)
         if ts.unit != unit:
             ts = ts.as_unit(unit)
-        raw = int(ts.asm8.view("i8"))
-        assert raw == int(v) and ts.unit == unit, (ts, ts.unit, unit)
-        return ts, ("d", raw)
+        assert ts.unit == unit and int(ts.asm8.view("i8")) * NPU[unit] == int(v), (ts, ts.unit, t)
+        return ts, ("d", int(v))
     return int(v), ("i", int(v))
 
 
@@ -214,17 +224,19 @@ def gen_float(rng, mode, j):
 
 
 def gen_date(rng, mode, j, unit):
-    sc = UNIT_SCALE[unit]
+    """An instant in ns that a datetime64[unit] column holds exactly."""
+    sc, npu = UNIT_SCALE[unit], NPU[unit]
     base = 1_120_000_000                          # seconds: 2005
     if mode == "daily":
-        return (base + 86400 * j) * sc
+        return (base + 86400 * j) * 10 ** 9
     if mode == "subsec":
-        return (base + rng.randint(0, 10 ** 7)) * sc + (rng.randint(0, sc - 1) if sc > 1 else 0)
+        return ((base + rng.randint(0, 10 ** 7)) * sc + (rng.randint(0, sc - 1) if sc > 1 else 0)) * npu
     if mode == "old":
-        return -(rng.randint(0, 2 * 10 ** 9)) * sc - (rng.randint(0, sc - 1) if sc > 1 else 0)
-    if mode == "clip":                          # around multiples of 1e9 raw units (the clip divisor)
-        return rng.randint(1, 2000) * 10 ** 9 + rng.choice([-1, 0, 1, 999_999_999])
-    return rng.randint(0, 4 * 10 ** 9) * sc
+        return (-(rng.randint(0, 2 * 10 ** 9)) * sc - (rng.randint(0, sc - 1) if sc > 1 else 0)) * npu
+    if mode == "clip":                          # around whole seconds (the clip divisor is 1e9 ns)
+        v = rng.randint(-2 * 10 ** 9, 4 * 10 ** 9) * 10 ** 9 + rng.choice([-1, 0, 1, 999_999_999, -999_999_999, 500_000_000])
+        return v // npu * npu
+    return rng.randint(0, 4 * 10 ** 9) * 10 ** 9
 
 
 INT_MODES = ["small", "small", "seq", "big", "wrap", "neg", "mult", "edge"]
@@ -264,11 +276,12 @@ def gen_clock(rng, unit):
     kind = rng.random()
     out = []
     if kind < 0.65:
-        sc = UNIT_SCALE[unit]
-        t = (1_120_000_000 + rng.randint(0, 10 ** 8)) * sc + rng.choice([0, 0, rng.randint(0, sc - 1) if sc > 1 else 0])
-        step = rng.choice([86400, 3600, 1, 10 ** 6, 365 * 86400]) * sc
+        sc, npu = UNIT_SCALE[unit], NPU[unit]
+        t = ((1_120_000_000 + rng.randint(0, 10 ** 8)) * sc + rng.choice([0, 0, rng.randint(0, sc - 1) if sc > 1 else 0])) * npu
+        step = rng.choice([86400, 3600, 1, 10 ** 6, 365 * 86400]) * 10 ** 9
+        mixed = rng.random() < 0.5                # the Timestamp's own storage unit varies from batch to batch
         for _ in range(8):
-            out.append(["d", t, unit])
+            out.append(["d", t, rng.choice(units_for([t])) if mixed else unit])
             if rng.random() > 0.15:
                 t += step
     else:
@@ -290,7 +303,10 @@ def gen_history(rng, nbatch=None, size=None, schema=None, dense=False):
     clock = gen_clock(rng, unit)
     label_mode = rng.choice(["consecutive", "consecutive", "shuffled", "sparse"])
     steps, seen, used_labels, total, nxt = [], set(), set(), 0, 0
+    base_dts = list(dts)
+    mixed_units = rng.random() < 0.5      # every batch stores its datetime columns in a unit of its own (same instants scale)
     for bi in range(nb):
+        dts = [f"d:{rng.choice(UNITS)}" if (mixed_units and dt.startswith("d:")) else dt for dt in base_dts]
         n = rng.choice([0, 1, 2, 3, 5, 8, 13, 20, 30, 40]) if rng.random() < 0.5 else rng.randint(1, 12)
         if dense:
             n = max(3, int(size * rng.uniform(0.15, 0.35)))
@@ -340,6 +356,21 @@ def gen_single_column(rng):
     dt = rng.choice(["i", "i", "f", "f", f"d:{unit}"])
     size = rng.choice([10, 16, 17, 19, 20, 23, 25, 29, 31, 32, 41, 50, 64])
     return gen_history(rng, nbatch=rng.choice([1, 2, 2, 3]), size=size, schema=([dt], unit), dense=True)
+
+
+def fit_units(steps, rng=None, reunit=False):
+    """Make every datetime column of every batch use a storage unit that holds its instants exactly (after keys were
+    copied between batches); with reunit=True pick a fresh random admissible unit for every such column and clock."""
+    for st in steps:
+        for j, dt in enumerate(st["dtypes"]):
+            if dt.startswith("d:"):
+                ok = units_for([k[j][1] for k in st["keys"]])
+                if reunit or dt[2:] not in ok:
+                    st["dtypes"] = list(st["dtypes"])
+                    st["dtypes"][j] = "d:" + (rng.choice(ok) if rng else ok[-1])
+        if reunit and st["t"][0] == "d":
+            st["t"] = ["d", st["t"][1], rng.choice(units_for([st["t"][1]]))]
+    return steps
 
 
 def gen_hist(rng):
@@ -405,6 +436,7 @@ def gen_bad(rng):
                             if not any(dt.startswith("d:") for dt in steps[0]["dtypes"]) else None, dense=True)
         case["size"] = size
         case["steps"] = steps = fresh["steps"]
+    fit_units(steps, rng)
     # dedupe accidental label clashes
     seen = set()
     for st in steps:
@@ -427,22 +459,22 @@ def corpus_hist():
             {"dtypes": ["i"], "labels": [0, 1, 2, 3, 4, 5], "keys": [[["i", 5]], [["i", 15]], [["i", 25]], [["i", 3]], [["i", 7]], [["i", 8]]], "t": ["i", 1]},
             {"dtypes": ["i"], "labels": [6, 7], "keys": [[["i", 9]], [["i", 30]]], "t": ["i", 2]}]},
         {"size": 23, "crn": True, "fuel": FUEL, "qseed": 9, "steps": [
-            {"dtypes": ["f"], "labels": [3, 1, 2, 0, 4, 5, 6, 7], "keys": [[f(v)] for v in [0.5, 1.25, 7.75, 30.5, 3.25, 77.125, 64.0, 12.375]], "t": ["d", 1120262400000000, "us"]},
-            {"dtypes": ["f"], "labels": [8, 9, 10, 11], "keys": [[f(v)] for v in [0.001, 99.9, 45.45, 18.0]], "t": ["d", 1120348800000000, "us"]}]},
+            {"dtypes": ["f"], "labels": [3, 1, 2, 0, 4, 5, 6, 7], "keys": [[f(v)] for v in [0.5, 1.25, 7.75, 30.5, 3.25, 77.125, 64.0, 12.375]], "t": ["d", 1120262400000000000, "us"]},
+            {"dtypes": ["f"], "labels": [8, 9, 10, 11], "keys": [[f(v)] for v in [0.001, 99.9, 45.45, 18.0]], "t": ["d", 1120348800000000000, "us"]}]},
         # two colliding keys in a size-10 map (the non-vacuity example of props/C03.v)
         {"size": 10, "crn": True, "fuel": FUEL, "qseed": 1, "steps": [
             {"dtypes": ["i"], "labels": [0, 1, 2, 3], "keys": [[["i", 5]], [["i", 15]], [["i", 25]], [["i", 3]]], "t": ["i", 1]},
             {"dtypes": ["i"], "labels": [4, 5], "keys": [[["i", 7]], [["i", 8]]], "t": ["i", 2]}]},
         # the float rounding corner: 0.3 % 1 * 1e10 rounds up to 3000000000.0
         {"size": 1000003, "crn": True, "fuel": FUEL, "qseed": 2, "steps": [
-            {"dtypes": ["f"], "labels": [0, 1, 2, 3], "keys": [[f(0.3)], [f(-1e-20)], [f(0.7)], [f(-0.25)]], "t": ["d", 1120262400000000, "us"]}]},
+            {"dtypes": ["f"], "labels": [0, 1, 2, 3], "keys": [[f(0.3)], [f(-1e-20)], [f(0.7)], [f(-0.25)]], "t": ["d", 1120262400000000000, "us"]}]},
         # entrance_time + age, two batches at different times
         {"size": 50, "crn": True, "fuel": FUEL, "qseed": 3, "steps": [
             {"dtypes": ["d:us", "f"], "labels": [2, 0, 1],
-             "keys": [[["d", 1120262400000000], f(30.5)], [["d", 1120262400000000], f(3.25)], [["d", 1120262400000000], f(77.125)]],
-             "t": ["d", 1120262400000000, "us"]},
+             "keys": [[["d", 1120262400000000000], f(30.5)], [["d", 1120262400000000000], f(3.25)], [["d", 1120262400000000000], f(77.125)]],
+             "t": ["d", 1120262400000000000, "us"]},
             {"dtypes": ["d:us", "f"], "labels": [3, 4],
-             "keys": [[["d", 1120348800000000], f(0.0)], [["d", 1120348800000000], f(0.001)]], "t": ["d", 1120348800000000, "us"]}]},
+             "keys": [[["d", 1120348800000000000], f(0.0)], [["d", 1120348800000000000], f(0.001)]], "t": ["d", 1120348800000000000, "us"]}]},
     ]
 
 
@@ -688,13 +720,13 @@ def oracle(case, trace, registered):
     return True, ""
 
 
-def cell_matches(c, x, dt):
+def cell_matches(c, x, dt=None):
     """Does the index value x of the private _map equal the cell the simulant supplied?  (defensive: True on doubt)"""
     import pandas as pd
     tag, v = c
     try:
         if tag == "d":
-            return int(pd.Timestamp(x).as_unit(dt[2:]).asm8.view("i8")) == v
+            return int(pd.Timestamp(x).as_unit("ns").value) == v
         if tag == "i":
             return int(x) == v
         if tag == "f":
@@ -776,8 +808,10 @@ def corpus_conv():
     vals = [0.3, 0.1, 0.7, -1e-20, 1.0 - 2.0 ** -53, 0.99999999995, 0.99999999999, -0.0, 2.0 ** 53 + 2, -2.5, 5e-324, 123.456]
     out = [{"dtype": "f", "cell": ["f", float(v).hex()]} for v in vals]
     out += [{"dtype": "i", "cell": ["i", v]} for v in [0, 1, 90000, 2 ** 63 - 1, -2 ** 63, -1, 83010348331692, 83010348331693, 10 ** 10]]
-    out += [{"dtype": "d:us", "cell": ["d", v]} for v in [0, -1, 999999999, 10 ** 9, 1120262400000000, -10 ** 9 - 1]]
-    out += [{"dtype": "d:ns", "cell": ["d", 1120262400123456789]}, {"dtype": "d:s", "cell": ["d", 1120262400]}]
+    out += [{"dtype": "d:ns", "cell": ["d", v]} for v in [0, -1, 999999999, 10 ** 9, -10 ** 9 - 1, 1120262400123456789]]
+    out += [{"dtype": "d:us", "cell": ["d", v]} for v in [1120262400000000000, 999999000, -1000, 1120262400999999000]]
+    out += [{"dtype": "d:ms", "cell": ["d", 1120262400999000000]}, {"dtype": "d:s", "cell": ["d", 1120262400000000000]},
+            {"dtype": "d:s", "cell": ["d", -1000000000]}]
     return [dict(c, size=2 ** 61 - 1) for c in out]
 
 
@@ -941,7 +975,7 @@ MGR_COLS = ["k0", "k1", "k2", "x0", "x1"]
 def gen_mgr(rng):
     nk = rng.choice([0, 1, 1, 2, 2, 3])
     kcols = rng.sample(["k0", "k1", "k2"], nk)                      # configuration order, any permutation
-    dts = {"k0": rng.choice(["i", "f"]), "k1": rng.choice(["i", "f", "d:us"]), "k2": rng.choice(["f", "i"]),
+    dts = {"k0": rng.choice(["i", "f"]), "k1": rng.choice(["i", "f", "d:us", "d:ns", "d:s"]), "k2": rng.choice(["f", "i"]),
            "x0": "f", "x1": "i"}
     pop = rng.randint(1, 6)
     cfg = rng.choice([1, 1, 30, 97, 101, 1000, 10 ** 6])
@@ -1108,7 +1142,7 @@ def _finish_mgr(case, imap, size_obs, events, uncounted):
         names = [c[0] for c in reg["cols"]]
         missing = [k for k in kcols if k not in names]
         t = ev["t"]
-        tspec = ["d", int(t.asm8.view("i8")), t.unit] if isinstance(t, pd.Timestamp) else ["i", int(t)]
+        tspec = ["d", int(t.as_unit("ns").value), t.unit] if isinstance(t, pd.Timestamp) else ["i", int(t)]
         tcell = clock_value(tspec)[1]
         if missing and ev["code"] != 1 and ok:
             ok, msg = False, f"key column {missing} missing from the frame, register_simulants gave code {ev['code']} {ev['err']}"
